@@ -28,6 +28,8 @@ def pre_encoder_mapping(fmt: str, T, D, value):
     from mashumaro.codecs import BasicEncoder
     from mashumaro.codecs import json as cj, msgpack as cm, orjson as co, toml as ct, yaml as cy
     ident = lambda x: x  # noqa: E731
+    if value is None:
+        value = T()
     kw = {} if D is None else {"default_dialect": D}
     if fmt == "FBasic":
         return BasicEncoder(T, **kw).encode(value)
@@ -469,6 +471,54 @@ def document_corr(ctx: vlib.Ctx):
     ctx.sample({"document_case": descr[0][:400]} if descr else {})
 
 
+_NT = None
+
+
+def NTHolder(cns: dict):
+    """a fresh holder type + instance factory: returns the TYPE; pre_encoder_mapping(value=None) builds the instance"""
+    global _NT
+    from dataclasses import dataclass, field
+    from typing import NamedTuple
+    from mashumaro.config import BaseConfig
+    if _NT is None:
+        _NT = NamedTuple("NTm", [("x", int), ("y", int)])
+    T = dataclass(type("H", (), {"__annotations__": {"nt": _NT}, "nt": _NT(1, 2), "Config": type("Config", (BaseConfig,), dict(cns))}))
+    return T
+
+
+def no_copy_corr(ctx: vlib.Ctx):
+    """codec_nc (DialectDecode.v) vs get_dialect_or_config_option("no_copy_collections", ()) of the real builder."""
+    from dataclasses import dataclass
+    from mashumaro.core.meta.code.builder import CodeBuilder
+    from mashumaro.dialect import Dialect
+    from mashumaro.mixins.msgpack import MessagePackDialect
+    from mashumaro.mixins.orjson import OrjsonDialect
+    from mashumaro.mixins.toml import TOMLDialect
+    fmt_dialect = {"FOrjson": OrjsonDialect, "FMsgpack": MessagePackDialect, "FToml": TOMLDialect}
+    ids = {list: 1, dict: 2}
+    cases, descr = [], []
+    for fmt in FMTS:
+        for dmode in ("none", None, (), (list,), (dict,), (list, dict)):
+            D = None if dmode == "none" else type("D", (Dialect,), {} if dmode is None else {"no_copy_collections": dmode})
+            dd = (fmt_dialect[fmt].merge(D) if D is not None else fmt_dialect[fmt]) if fmt in fmt_dialect else D
+            T = dataclass(type("T", (), {"__annotations__": {"x": int}, "x": 1}))
+            got = tuple(CodeBuilder(T, default_dialect=dd).get_dialect_or_config_option("no_copy_collections", ()))
+            Dn = "None" if dmode == "none" else ("(Some None)" if dmode is None else "(Some (Some [" + "; ".join(str(ids[t]) for t in dmode) + "]))")
+            cases.append(f"({fmt}, {Dn}, [" + "; ".join(str(ids[t]) for t in got) + "])")
+            descr.append((fmt, str(dmode), str(got)))
+            ctx.count(("nc", fmt, str(dmode)))
+    bad, log = vlib.coq_bad_idx("c13_nc", "OptProj DialectMerge DialectDoc DialectDecode", "From VerifGen Require Import K13C.",
+                                "Open Scope nat_scope.\n", cases, "nc_case_ok", "nc_case", needs=["theories/DialectDecode.vo"])
+    name = "no_copy_collections-model-vs-builder-resolution"
+    if bad is None:
+        ctx.correspondence(name, len(cases), -1, log)
+        ctx.not_shown("correspondence " + name, log)
+    else:
+        ctx.correspondence(name, len(cases), len(bad), str([descr[i] for i in bad[:4]]))
+        if bad:
+            ctx.not_shown("correspondence " + name, str([descr[i] for i in bad[:4]]))
+
+
 def namedtuple_mode_corr(ctx: vlib.Ctx):
     """nd_in_force (DialectDecode.v) vs the option the real builder resolves, exhaustively:
     6 formats x user dialect {none, unset, True, False} x Config.dialect {unset, True, False} x Config {unset, True, False}."""
@@ -495,6 +545,17 @@ def namedtuple_mode_corr(ctx: vlib.Ctx):
                         cns["dialect"] = type("CD", (Dialect,), {"namedtuple_as_dict": cfgd})
                     T = dataclass(type("T", (), {"__annotations__": {"x": int}, "x": 1, "Config": type("Config", (BaseConfig,), cns)}))
                     got = bool(CodeBuilder(T, default_dialect=dd).get_dialect_or_config_option("namedtuple_as_dict", False))
+                    # ... and what the real Encoder of the format then does with a named tuple (end to end, pack side)
+                    try:
+                        out = pre_encoder_mapping(fmt, NTHolder(cns), D, None)
+                        beh = isinstance(out.get("nt"), dict)
+                    except Exception as e:  # noqa: BLE001
+                        beh = f"{type(e).__name__}"
+                    if beh != got:
+                        ctx.fail(f"{fmt} encoder with default_dialect namedtuple_as_dict={dmode}, Config.dialect={cfgd}, Config={cfg}: "
+                                 f"named tuple rendered as {'dict' if beh is True else 'list' if beh is False else beh}, the builder resolves as_dict={got}",
+                                 {"entry": "ntmode", "format": fmt, "dialect": str(dmode), "config_dialect": cfgd, "config": cfg,
+                                  "observed": str(beh), "expected": got}, {"kind": "namedtuple-mode-not-resolved", "format": fmt})
                     Dn = "None" if dmode == "none" else f"(Some {tri_name[dmode]})"
                     cases.append(f"({fmt}, {Dn}, {tri_name[cfgd]}, {tri_name[cfg]}, {'true' if got else 'false'})")
                     descr.append((fmt, dmode, cfgd, cfg, got))
@@ -516,4 +577,36 @@ def run_all(ctx: vlib.Ctx):
     strategy_choice_corr(ctx)
     strategy_choice_corr(ctx, "deserialize")
     namedtuple_mode_corr(ctx)
+    no_copy_corr(ctx)
     document_corr(ctx)
+
+
+def ntmode_replay(rep: dict) -> int:
+    """re-run one combination of the named-tuple sweep"""
+    from mashumaro.core.meta.code.builder import CodeBuilder
+    from mashumaro.dialect import Dialect
+    from mashumaro.mixins.msgpack import MessagePackDialect
+    from mashumaro.mixins.orjson import OrjsonDialect
+    from mashumaro.mixins.toml import TOMLDialect
+    fmt_dialect = {"FOrjson": OrjsonDialect, "FMsgpack": MessagePackDialect, "FToml": TOMLDialect}
+    fmt, cfgd, cfg = rep["format"], rep["config_dialect"], rep["config"]
+    dmode = {"none": "none", "None": None, "True": True, "False": False}[rep["dialect"]]
+    D = None if dmode == "none" else type("D", (Dialect,), {} if dmode is None else {"namedtuple_as_dict": dmode})
+    dd = (fmt_dialect[fmt].merge(D) if D is not None else fmt_dialect[fmt]) if fmt in fmt_dialect else D
+    cns = {}
+    if cfg is not None:
+        cns["namedtuple_as_dict"] = cfg
+    if cfgd is not None:
+        cns["dialect"] = type("CD", (Dialect,), {"namedtuple_as_dict": cfgd})
+    T = NTHolder(cns)
+    got = bool(CodeBuilder(T, default_dialect=dd).get_dialect_or_config_option("namedtuple_as_dict", False))
+    try:
+        beh = isinstance(pre_encoder_mapping(fmt, NTHolder(cns), D, None).get("nt"), dict)
+    except Exception as e:  # noqa: BLE001
+        beh = type(e).__name__
+    print("resolved as_dict", got, "rendered as dict", beh)
+    if beh != got:
+        print("REPRODUCED")
+        return 1
+    print("not reproduced")
+    return 0
